@@ -56,6 +56,9 @@ func (s *tSigner) Sign(_ io.Reader, content []byte) ([]byte, error) {
 	switch s.mode {
 	case "err":
 		return nil, errSigner
+	case "errb":
+		// a faulty signer that hands back a partly written buffer together with its error
+		return []byte{0xde, 0xad, 0xbe, 0xef}, errSigner
 	case "empty":
 		return []byte{}, nil
 	}
